@@ -81,7 +81,7 @@ impl IndicatorConfig for Kaufman {
 			change: Change::new(cfg.period1, src)?,
 			fastest: 2. / (cfg.period2 + 1) as ValueType,
 			slowest: 2. / (cfg.period3 + 1) as ValueType,
-			st_dev: StDev::new(cfg.filter_period, src)?,
+			st_dev: StDev::new(cfg.filter_period.max(2), src)?,
 			cross: Cross::default(),
 			last_signal: Action::None,
 			last_signal_value: *src,
